@@ -83,6 +83,34 @@ CHECKS = {
         "Trusted: M4; real save/load as the freshness reference. Depth- and alphabet-bounded.",
         "DESIGN.md 4 C13",
     ),
+    "C10": (
+        "model_checking",
+        "exhaustive exploration of a history graph per class x configuration; every state is saved and "
+        "re-loaded through every loader (shared_memory False/True) with a differential oracle "
+        "(equality, merge, one-step bisimulation over all events, save/load chains)",
+        "For all five classes and a grid of configurations (width/depth 1, non-default "
+        "max_count/num_reserved/phi, seeds >= 2^63, default phi at width 1) every state reachable by "
+        "<= D adds (also from a state with n_records != 0) is saved with the real save() and loaded "
+        "with the class loader and the module-level load(); the loaded object must be of the same "
+        "class with equal parameters/tables/answers, merge with the original like a copy, and evolve "
+        "identically under every further event (log sketches: identical installed draws). The "
+        "count-min dispatch / rejection matrix is enumerated completely.",
+        "Differential oracle (the original object is the reference). Grid- and depth-bounded.",
+        "DESIGN.md 4 C10",
+    ),
+    "C12": (
+        "model_checking",
+        "exhaustive commuting-diagram enumeration from every state of a small history graph: batch / "
+        "dict / multiplicity / ngram entry points vs loops of single adds on two real objects",
+        "From every state reachable by <= D adds, for each of the five classes at colliding shapes: "
+        "every list over a 3-key alphabet (len <= 3), every dict over the alphabet x values, add(k,v) "
+        "for v in {0,1,2,3,7,10^4}, add_ngram(x,n) for EVERY byte string x over 3 bytes of length 0..5 "
+        "and every n in 1..len+2, update_ngram lists; both paths must end in the identical full "
+        "concrete state (log sketches with the same installed draw batch, rand_ptr compared).",
+        "State equality excludes the scratch buffer `buckets` and the installed draw batch. "
+        "Alphabet- and depth-bounded.",
+        "DESIGN.md 4 C12",
+    ),
     "C11": (
         "model_checking",
         "exhaustive enumeration of a finite input domain (all byte values x positions x lengths, "
